@@ -122,13 +122,13 @@ def spec_check(cfg: dict, out: dict) -> list[tuple[str, str]]:
             v.append(("effects-for-rejected-script", f"effects for a rejected script: {eff[:3]}"))
         return v
     if faults.get("mkdtemp") == "oserror":
-        if not (outcome == "raised" and exc == "OSError"):
+        if outcome != "raised":   # (any exception type: only that the failure reaches the caller is required)
             v.append(("mkdtemp-failure-swallowed", f"mkdtemp failure: {outcome} {exc}"))
         if [e for e in eff if e[0] == "write"] or [r for r in runs if r[1] != ["pio", "--version"]]:
             v.append(("effects-after-mkdtemp-failure", f"{eff[:4]}"))
         return v
     if faults.get("write_main") == "oserror" or faults.get("write_ini") == "oserror":
-        if not (outcome == "raised" and exc == "OSError"):
+        if outcome != "raised":
             v.append(("write-failure-swallowed", f"file write failure: {outcome} {exc}"))
         if [r for r in runs if r[1] != ["pio", "--version"]]:
             v.append(("build-after-write-failure", f"pio run after a failed write: {runs}"))
@@ -174,12 +174,12 @@ def spec_check(cfg: dict, out: dict) -> list[tuple[str, str]]:
     else:
         want_runs = [["pio", "run"]]
         if faults.get("build") in ("fail", "signal"):
-            if not (outcome == "raised" and exc == "CalledProcessError"):
+            if outcome != "raised":   # the failure has to reach the caller (the exception type is not prescribed)
                 v.append(("build-failure-swallowed", f"failed build: {outcome} {exc}"))
         else:
             want_runs.append(["pio", "run", "-t", "upload"])
             if faults.get("upload") in ("fail", "signal"):
-                if not (outcome == "raised" and exc == "CalledProcessError"):
+                if outcome != "raised":   # the failure has to reach the caller (the exception type is not prescribed)
                     v.append(("upload-failure-swallowed", f"failed upload: {outcome} {exc}"))
             elif outcome != "returned":
                 v.append(("upload-raised", f"build+upload ok but target() raised {exc}"))
